@@ -252,7 +252,22 @@ def rule_nonce_preimage(ctx: Ctx, rep: Report) -> None:
     rep.floor(rule, 3)
 
 
+def rule_config_not_replaced_(ctx: Ctx, rep: Report) -> None:
+    """C03.config_not_replaced: the curve / hash function / network a function takes is handed on as its own, never replaced by a module constant (see sigcommon.rule_config_not_replaced)."""
+    from rules.sigcommon import rule_config_not_replaced
+    rule_config_not_replaced(ctx, rep, "C03.config_not_replaced", ('btclib.ecc.ssa', 'btclib.ecc.bip340_nonce', 'btclib.hashes'), 1)
+
+
+def rule_hash_params_(ctx: Ctx, rep: Report) -> None:
+    """C03.hash_params: a `..._hash` parameter is handed a digest, never the caller's text as it came (see sigcommon.rule_hash_params)."""
+    from rules.sigcommon import rule_hash_params
+    rule_hash_params(ctx, rep, "C03.hash_params", ('btclib.ecc.ssa', 'btclib.ecc.bip340_nonce', 'btclib.hashes'), 1)
+
+
 RULES = [
+    ("C03.config_not_replaced", rule_config_not_replaced_),
+    ("C03.hash_params", rule_hash_params_),
+
     ("C03.length_dispatch", rule_length_dispatch_),
     ("C03.nonce_preimage", rule_nonce_preimage),
     ("C03.aux_in_commitment", rule_aux_in_commitment),
